@@ -9,7 +9,7 @@ import random
 from .. import frames as F
 from .. import harness as H
 from .. import refproto as R
-from ..sockworld import SockWorld, quiesce, describe
+from ..sockworld import SockWorld, quiesce, describe, baseline_delivery
 
 ID = "C13"
 LEVEL = "exploration"
@@ -25,7 +25,7 @@ RULE = ("Streams of 1..8 well-formed frames of every kind (both generations) are
 ASSUMPTIONS = ["SimTransport.peer_data == one TCP segment arriving (data_received call)",
                "baseline cross-checked against refproto's frame count/order"]
 REQUIRED_OBS = ["sends_between_segments", "segmentations_ok", "cuts_inside_header", "cuts_inside_crc", "byte_at_a_time",
-                "slow_subscriber_runs"]
+                "slow_subscriber_runs", "second_client_receiving_in_the_gaps"]
 SOAK = True   # also judged by the whole-run monitors of the soak sessions (vf/soak.py)
 BUDGET = {"quick": 100, "thorough": 1500}
 
@@ -58,13 +58,20 @@ def streams(gen):
 _BASE = {}
 
 
-def deliver(gen, stream, cuts, gap, debug=False, delays=None, send_in_gap=False):
+def deliver(gen, stream, cuts, gap, debug=False, delays=None, send_in_gap=False, duo=False):
     """Deliver `stream` cut at `cuts`; returns (deliveries, closed, errors, status).
     send_in_gap: the application submits a command after every segment (sending and receiving
-    go on at the same time on one connection)."""
+    go on at the same time on one connection).
+    duo: a second client of the same generation lives in the process, connected to another
+    console, and receives a whole frame of its own after every segment."""
     import pyairtouch.comms.socket as psock
     from .. import sockscript as S
     sent = []
+    base2 = {}
+    if duo:
+        for i in range(len(cuts) + 1):
+            r = F.probe_frame(gen, 40 + 7 * i)
+            base2[r] = baseline_delivery(gen, r)
 
     async def main(loop, net, log):
         w = SockWorld(gen, loop, net, log)
@@ -72,12 +79,22 @@ def deliver(gen, stream, cuts, gap, debug=False, delays=None, send_in_gap=False)
             w.msg_delays = list(delays)
         await w.open()
         c = net.current()
+        w2 = c2 = None
+        fed2 = []
+        if duo:
+            w2 = SockWorld(gen, loop, net, log, host="10.0.0.2")
+            await w2.open()
+            c2 = net.current()
         pos = [0] + list(cuts) + [len(stream)]
         for i in range(len(pos) - 1):
             seg = stream[pos[i]:pos[i + 1]]
             if not seg:
                 continue
             c.transport.peer_data(seg)
+            if duo:
+                raw2 = F.probe_frame(gen, 40 + 7 * i)
+                fed2.append(raw2)
+                c2.transport.peer_data(raw2)
             if send_in_gap:
                 msg, typ, data = S.make_message(gen, S.KINDS[i % 3], 7000 + i)
                 sent.append((typ, bytes(data)))
@@ -96,8 +113,15 @@ def deliver(gen, stream, cuts, gap, debug=False, delays=None, send_in_gap=False)
         if delays:
             await asyncio.sleep(sum(delays) + 1.0)
         await quiesce(loop)
-        closed = (not c.open) or len(net.conns) != 1
+        closed = (not c.open) or len(net.conns) != (2 if duo else 1)
         out = [describe(h, m) for _, h, m in w.msgs]
+        if duo:
+            got2 = [describe(h, m) for _, h, m in w2.msgs]
+            want2 = [base2[r] for r in fed2]
+            if got2 != want2 or not c2.open:
+                closed = True
+                log.add("HARNESS.other_client_disturbed", want=len(want2), got=len(got2))
+            await w2.close()
         if send_in_gap:
             by = S.frames_by_conn(gen, log).get(c.id)
             got = [(i["frame"].typ, bytes(i["frame"].data)) for i in by["frames"]
@@ -153,6 +177,12 @@ def cases(tier, seed):
                     for ch in _chunks(ones_all, 100):
                         yield {"k": "cuts", "gen": gen, "stream": sname, "gap": gap, "cuts": ch,
                                "send_in_gap": True}
+            if full:
+                # a second client in the same process receives its own frames in the gaps
+                for gap in ("same_turn", "turn1"):
+                    for ch in _chunks([[i] for i in range(1, n)], 100):
+                        yield {"k": "cuts", "gen": gen, "stream": sname, "gap": gap, "cuts": ch,
+                               "duo": True}
             if not full:
                 continue
             ones = [[i] for i in range(1, n)]
@@ -217,7 +247,11 @@ def run_case(case):
     for cuts in case["cuts"]:
         out, closed, errs, status = deliver(gen, stream, cuts, case["gap"],
                                             case.get("debug", False), case.get("delays"),
-                                            case.get("send_in_gap", False))
+                                            case.get("send_in_gap", False),
+                                            case.get("duo", False))
+        if case.get("duo"):
+            obs["second_client_receiving_in_the_gaps"] = obs.get(
+                "second_client_receiving_in_the_gaps", 0) + 1
         if case.get("send_in_gap"):
             obs["sends_between_segments"] = obs.get("sends_between_segments", 0) + len(cuts)
         if case.get("delays"):
